@@ -1,19 +1,18 @@
-SPECIFICATION InitOnly
+SPECIFICATION FairSpec
 CONSTANTS
-  Configs <- RealConfigs
+  Configs <- TheConfigs
   ScriptLen = 0
   LongScripts = TRUE
   Ops <- AllOps
   Formats = {"xml"}
-  Comps = {"plain"}
+  Comps = {"plain", "gzip", "bzip2"}
   Pools = {TRUE}
   Bounds = {1}
   Caps = {2}
   MaxAt = 9
   FaultKinds <- AllKinds
   FdFix = TRUE
-  GenFormats = {"xml", "opl"}
-  GenComps = {"plain", "gzip"}
+  GenFormats = {"xml"}
+  GenComps = {"plain"}
   GenScriptLen = 0
-INVARIANT ExportCfg
-CHECK_DEADLOCK FALSE
+PROPERTY Termination
